@@ -56,6 +56,15 @@ static void icp_case(vh::Ctx & c, const char * tname, const char * cat, double t
              .boolean("find_returned", ok).f("frobenius_error", err).raw("estimated", vh::jmat(H)).str();
     };
   c.sample(std::string("icp_") + cat, wit);
+  if (getenv("C06_SURVEY")) {
+    if (!ok || err > 0.015) {
+      fprintf(c.out, "{\"t\":\"survey\",\"ok\":%d,\"err\":%.5f,\"tx\":%.6f,\"ty\":%.6f,\"theta\":%.6f,\"hom\":%d,\"flt\":%d}\n",
+        (int)ok, err, tx, ty, th, (int)Tr<P>::HOMOGENEOUS, (int)(sizeof(S) == 4));
+    }
+    c.count(ok ? (err > 0.015 ? "survey_inaccurate" : "survey_ok") : "survey_not_converged");
+    c.maxi("survey_worst_error_when_ok", ok ? err : 0);
+    return;
+  }
   c.expect("icp.reports_success", ok, "icp_not_converged", params, wit);
   if (ok) {
     c.expect_le("icp.frobenius_error", err, 0.015, "icp_inaccurate", params, wit);
@@ -87,6 +96,13 @@ static void icp_dispatch(vh::Ctx & c, vh::Rng & r, uint64_t idx)
     // fixed witnesses inside the known non-convergence corner (+,+,+)
     static const double W[3][3] = {{0.2, 0.2, 0.05}, {0.19, 0.195, 0.048}, {0.185, 0.19, 0.0475}};
     cat = "known_corner_witness"; tx = W[idx - 28][0]; ty = W[idx - 28][1]; th = W[idx - 28][2];
+  } else if (getenv("C06_SURVEY")) {
+    // calibration aid (not used by the registered tiers): boundary / corner heavy sampling of the whole envelope
+    cat = "survey";
+    auto edge = [&](double L) {return r.sign() * L * (1 - 0.2 * r.uni());};
+    tx = r.coin(0.65) ? edge(TL) : r.uni(-TL, TL);
+    ty = r.coin(0.65) ? edge(TL) : r.uni(-TL, TL);
+    th = r.coin(0.65) ? edge(RL) : r.uni(-RL, RL);
   } else {
     int m = (int)r.range(0, 9);
     if (m < 4) {
@@ -107,6 +123,7 @@ static void icp_dispatch(vh::Ctx & c, vh::Rng & r, uint64_t idx)
   // representation: both for the fixed cases, alternating otherwise; float only in the thorough tier
   int rep = idx <= 30 ? 2 : (int)r.range(0, 1);
   bool use_float = c.tier == "thorough" && idx > 30 && r.coin(0.25);
+  if (getenv("C06_SURVEY")) {use_float = std::string(getenv("C06_SURVEY")) == "float";}
   c.distinct(vh::hash_doubles({1.0, tx, ty, th, (double)rep, (double)use_float}), nontrivial);
   if (use_float) {
     c.cat("icp_float");
@@ -181,7 +198,7 @@ static void one_case(vh::Ctx & c, uint64_t idx)
 {
   vh::Rng r(c.seed, idx);
   uint64_t z = idx * 0x9E3779B97F4A7C15ULL + 12345;
-  bool is_icp = idx <= 30 || (vh::splitmix64(z) % 8 == 0);
+  bool is_icp = idx <= 30 || (vh::splitmix64(z) % 8 == 0) || getenv("C06_SURVEY");
   if (is_icp) {icp_dispatch(c, r, idx); return;}
   switch (r.range(0, 7)) {
     case 0: ransac_case<Eigen::Vector2d>(c, r, "Cartesian2d"); break;
